@@ -421,7 +421,7 @@ theorem adjOf_acc {c : LaDfa} (hc : CompiledOk c) (w : List Nat) (p : Int) :
 
 /-! ### `AdjacencyList::minimize` and `CompiledDFA::minimize` -/
 
-theorem minimize_step {a a' : Adj} {ch : List Nat} (hwf : AdjWF a) (h : a.minimize ch = some a') : Step' a a' := by
+theorem minimize_step {a a' : Adj} {ch : List Nat} (hwf : AdjWF a) (h : a.minimize ch = some a') : MinStep' a a' := by
   unfold Adj.minimize at h
   split at h
   · cases h
